@@ -49,6 +49,7 @@ def leaf_invariants(chk, n, k, c):
 
 def run(chk):
     thorough = chk.tier == 'thorough'
+    chk.bounds['families added after seeded changes'] = 'caller-supplied wild-card sets and domains that are NOT confined to the unit set (whole state predicates over all colours) on C2, M2 through ext / ext_dirty / ext_multi_dirty: inside-unit query and semantics on the valid colours'
     chk.bounds.update({'E-MIR invariants': 'layer-2 functions from MIR, n=2, k in {1,2}, one colour bit with a symbolic valid-colour mask (invalid colours exist)',
                        'E-MIR kernels': 'loop kernels in merge mode, (n,c) in {(2,1),(3,1)}: result == semantics intersected with the unit set',
                        'E-MIR eval_node': 'raw results of the string entry points from MIR, n=2, c=1: inside the unit set and independent of every auxiliary variable',
